@@ -21,6 +21,8 @@ type sqlFaults struct {
 	FailNextAtRow int // rows.Next of a SELECT on events fails instead of returning the r-th row of the run (-1: never)
 	FailQueryAt   int // the q-th SELECT on events fails (-1: never)
 	FailCloseAt   int // the c-th Rows.Close of such a SELECT fails (-1: never)
+	FailSubExecAt int // the x-th statement executed against subscription_positions fails (0: never; 1-based)
+	subExecs      int
 	rows, queries, closes int
 	Fired         map[string]int
 }
@@ -74,7 +76,7 @@ func (c *faultyConn) PrepareContext(ctx context.Context, q string) (driver.Stmt,
 	if err != nil {
 		return nil, err
 	}
-	return &faultyStmt{Stmt: s, watched: isEventSelect(q)}, nil
+	return &faultyStmt{Stmt: s, watched: isEventSelect(q), subExec: strings.Contains(q, "subscription_positions") && !strings.HasPrefix(strings.TrimSpace(strings.ToUpper(q)), "SELECT") && !strings.HasPrefix(strings.TrimSpace(strings.ToUpper(q)), "CREATE")}, nil
 }
 
 func (c *faultyConn) Prepare(q string) (driver.Stmt, error) { return c.PrepareContext(context.Background(), q) }
@@ -87,6 +89,10 @@ func (c *faultyConn) BeginTx(ctx context.Context, opts driver.TxOptions) (driver
 }
 
 func (c *faultyConn) ExecContext(ctx context.Context, q string, args []driver.NamedValue) (driver.Result, error) {
+	u := strings.TrimSpace(strings.ToUpper(q))
+	if strings.Contains(q, "subscription_positions") && !strings.HasPrefix(u, "SELECT") && !strings.HasPrefix(u, "CREATE") && subExecFault() {
+		return nil, errSQLInjected
+	}
 	if e, ok := c.Conn.(driver.ExecerContext); ok {
 		return e.ExecContext(ctx, q, args)
 	}
@@ -136,9 +142,26 @@ func (c *faultyConn) IsValid() bool {
 type faultyStmt struct {
 	driver.Stmt
 	watched bool
+	subExec bool
+}
+
+func subExecFault() bool {
+	f := curSQLFaults
+	if f == nil || f.FailSubExecAt <= 0 {
+		return false
+	}
+	f.subExecs++
+	if f.subExecs == f.FailSubExecAt {
+		f.Fired["sql-subscription-write-fails"]++
+		return true
+	}
+	return false
 }
 
 func (s *faultyStmt) ExecContext(ctx context.Context, args []driver.NamedValue) (driver.Result, error) {
+	if s.subExec && subExecFault() {
+		return nil, errSQLInjected
+	}
 	if e, ok := s.Stmt.(driver.StmtExecContext); ok {
 		return e.ExecContext(ctx, args)
 	}
